@@ -40,7 +40,7 @@ func (c16) generateGit(r *core.Rand, tier string, idx uint64) *core.Case {
 		c.Config["established"] = 1
 	}
 	// which subprocesses of the operation are faulted: a stride through its trace, offset by the case number
-	c.Config["offset"] = int(seq / 10 % 4)
+	c.Config["offset"] = int(seq / 10 % 12)
 	c.Config["stride"] = 4
 	if tier == "thorough" {
 		c.Config["stride"] = 2
@@ -252,7 +252,16 @@ func (d c16) executeGit(c *core.Case) (res *core.Result) {
 	refs0 := base.Refs()
 	outcomes := []string{}
 	faulted := 0
-	for k := c.Config["offset"]; k < len(trace); k += c.Config["stride"] {
+	// at most maxK fault positions per case, spread over the trace; the offset (from the case number)
+	// moves them so that successive cases cover every position
+	stride, maxK := c.Config["stride"], 6
+	if c.Config["stride"] == 2 {
+		maxK = 12
+	}
+	if (len(trace)+stride-1)/stride > maxK {
+		stride = (len(trace) + maxK - 1) / maxK
+	}
+	for k := c.Config["offset"] % stride; k < len(trace); k += stride {
 		for _, ftype := range []string{"io-error", "crash-after"} {
 			wr := clone("work")
 			gi := open(wr)
